@@ -47,6 +47,9 @@ HARNESSES = {
     "filter_multibyte_neighbour": ("filter", False, ["C14", "C10"], "foreign multi-byte name is skipped without panic (regression check for F2)", "catalogue entry: foo\u00e9.log"),
     "filter_equals_current": ("filter", False, ["C14", "C16"], "InfixFilter::Equls selects exactly the current infix", "catalogue entry: Equls(rCURRENT)"),
     "filter_compressed": ("filter", False, ["C14", "C07"], "compressed members are selected with suffix gz", "catalogue entry: .log.gz"),
+    "filter_suffix_tail_catalog": ("filter", False, ["C14", "C07"], "suffix must be the extension, not a tail of the name", "catalogue entry: .catalog vs suffix log"),
+    "filter_suffix_tail_tgz": ("filter", False, ["C14", "C07"], "suffix must be the extension, not a tail of the name", "catalogue entry: .tgz vs gz"),
+    "filter_suffix_no_dot": ("filter", False, ["C14", "C07"], "suffix must be the extension, not a tail of the name", "catalogue entry: extension-less name ending in log"),
     "ts_infix_member": ("tsinfix", False, ["C10", "C06"], "real ts_infix_from_path", "catalogue entry: standard timestamp name"),
     "ts_infix_short_name": ("tsinfix", False, ["C10", "C06"], "real ts_infix_from_path does not panic on a shorter name (regression check for F5)", "catalogue entry: number-named file"),
     "ts_infix_restart_sibling": ("tsinfix", False, ["C10", "C06"], "real ts_infix_from_path", "catalogue entry: .restart sibling"),
